@@ -63,6 +63,9 @@ mod config;
 mod handle;
 #[cfg(test)]
 mod tests;
+#[cfg(litep2p_verif)]
+#[path = "../../verif/c13.rs"]
+pub(crate) mod verif_c13;
 
 /// Logging target for the file.
 const LOG_TARGET: &str = "litep2p::request-response::protocol";
@@ -173,7 +176,9 @@ pub(crate) struct RequestResponseProtocol {
     >,
 
     /// Pending dials for outbound requests.
-    pending_dials: HashMap<PeerId, RequestContext>,
+    ///
+    /// Several requests can be waiting for the same dial to conclude.
+    pending_dials: HashMap<PeerId, Vec<RequestContext>>,
 
     /// TX channel for sending events to the user protocol.
     event_tx: Sender<InnerRequestResponseEvent>,
@@ -241,54 +246,66 @@ impl RequestResponseProtocol {
                 );
                 entry.insert(PeerContext::new());
             }
-            Some(context) => match self.service.open_substream(peer) {
-                Ok(substream_id) => {
-                    tracing::trace!(
-                        target: LOG_TARGET,
-                        ?peer,
-                        protocol = %self.protocol,
-                        request_id = ?context.request_id,
-                        ?substream_id,
-                        "dial succeeded, open substream",
-                    );
+            Some(contexts) => {
+                let mut peer_context = PeerContext::new();
+                let mut failed = Vec::new();
 
-                    entry.insert(PeerContext {
-                        active: HashSet::from_iter([context.request_id]),
-                        active_inbound: HashMap::new(),
-                    });
-                    self.pending_outbound.insert(
-                        substream_id,
-                        RequestContext::new(
-                            peer,
-                            context.request_id,
-                            context.request,
-                            context.fallback,
-                        ),
-                    );
+                // open a substream for every request that was waiting for the dial to conclude
+                for context in contexts {
+                    match self.service.open_substream(peer) {
+                        Ok(substream_id) => {
+                            tracing::trace!(
+                                target: LOG_TARGET,
+                                ?peer,
+                                protocol = %self.protocol,
+                                request_id = ?context.request_id,
+                                ?substream_id,
+                                "dial succeeded, open substream",
+                            );
+
+                            peer_context.active.insert(context.request_id);
+                            self.pending_outbound.insert(substream_id, context);
+                        }
+                        // only reason the substream would fail to open would be that the connection
+                        // would've been reported to the protocol with enough delay that the keep-alive
+                        // timeout had expired and no other protocol had opened a substream to it,
+                        // causing the connection to be closed
+                        Err(error) => {
+                            tracing::warn!(
+                                target: LOG_TARGET,
+                                ?peer,
+                                protocol = %self.protocol,
+                                request_id = ?context.request_id,
+                                ?error,
+                                "failed to open substream",
+                            );
+
+                            failed.push((context.request_id, error));
+                        }
+                    }
                 }
-                // only reason the substream would fail to open would be that the connection
-                // would've been reported to the protocol with enough delay that the keep-alive
-                // timeout had expired and no other protocol had opened a substream to it, causing
-                // the connection to be closed
-                Err(error) => {
-                    tracing::warn!(
-                        target: LOG_TARGET,
-                        ?peer,
-                        protocol = %self.protocol,
-                        request_id = ?context.request_id,
-                        ?error,
-                        "failed to open substream",
-                    );
 
-                    return self
+                // as before, the peer is only registered if a substream could be opened to it
+                if !peer_context.active.is_empty() {
+                    entry.insert(peer_context);
+                }
+
+                let mut result = Ok(());
+                for (request_id, error) in failed {
+                    if let Err(error) = self
                         .report_request_failure(
                             peer,
-                            context.request_id,
+                            request_id,
                             RequestResponseError::Rejected(error.into()),
                         )
-                        .await;
+                        .await
+                    {
+                        result = Err(error);
+                    }
                 }
-            },
+
+                return result;
+            }
         }
 
         Ok(())
@@ -624,20 +641,22 @@ impl RequestResponseProtocol {
     }
 
     async fn on_dial_failure(&mut self, peer: PeerId) {
-        if let Some(context) = self.pending_dials.remove(&peer) {
+        if let Some(contexts) = self.pending_dials.remove(&peer) {
             tracing::debug!(target: LOG_TARGET, ?peer, protocol = %self.protocol, "failed to dial peer");
 
-            let _ = self
-                .peers
-                .get_mut(&peer)
-                .map(|peer_context| peer_context.active.remove(&context.request_id));
-            let _ = self
-                .report_request_failure(
-                    peer,
-                    context.request_id,
-                    RequestResponseError::Rejected(RejectReason::DialFailed(None)),
-                )
-                .await;
+            for context in contexts {
+                let _ = self
+                    .peers
+                    .get_mut(&peer)
+                    .map(|peer_context| peer_context.active.remove(&context.request_id));
+                let _ = self
+                    .report_request_failure(
+                        peer,
+                        context.request_id,
+                        RequestResponseError::Rejected(RejectReason::DialFailed(None)),
+                    )
+                    .await;
+            }
         }
     }
 
@@ -751,10 +770,10 @@ impl RequestResponseProtocol {
                             "started dialing peer",
                         );
 
-                        self.pending_dials.insert(
-                            peer,
-                            RequestContext::new(peer, request_id, request, fallback),
-                        );
+                        self.pending_dials
+                            .entry(peer)
+                            .or_default()
+                            .push(RequestContext::new(peer, request_id, request, fallback));
                         return Ok(());
                     }
                     Err(error) => {
@@ -1017,6 +1036,9 @@ impl RequestResponseProtocol {
         tracing::debug!(target: LOG_TARGET, "starting request-response event loop");
 
         loop {
+            #[cfg(litep2p_verif)]
+            self.verif_snapshot();
+
             tokio::select! {
                 // events coming from the network have higher priority than user commands as all user commands are
                 // responses to network behaviour so ensure that the commands operate on the most up to date information.
